@@ -229,7 +229,8 @@ fn with_boost(rng: &mut Rng, mut v: Value) -> Value {
   v
 }
 
-/// words handed out without repetition (so that scored clauses rarely share a term key)
+/// words of one request: with `dup` drawn with repetition (several scoring clauses share a
+/// term key), else without
 pub struct Words {
   pool: Vec<String>,
   dup: bool,
@@ -519,20 +520,9 @@ fn pipeline(rng: &mut Rng) -> Value {
     0 => json!({"type": "avg_bucket", "buckets_path": path}),
     1 => json!({"type": "sum_bucket", "buckets_path": path}),
     2 => json!({"type": "derivative", "buckets_path": path, "gap_policy": *rng.pick(&["Skip", "InsertZeros", "skip", "insert_zeros"]), "unit": weird_f64(rng)}),
-    3 => json!({"type": "moving_avg", "buckets_path": path, "window": small_or_huge(rng, 4), "predict": small_or_huge_capped(rng, 4)}),
+    3 => json!({"type": "moving_avg", "buckets_path": path, "window": small_or_huge(rng, 4), "predict": small_or_huge(rng, 4)}),
     4 => json!({"type": "bucket_script", "buckets_path": {"a": path, "b": "_count"}, "script": *rng.pick(&["a + b", "a / b", "a /", "b * 1e308 * 1e308", "(a", "c", ""])}),
     _ => json!({"type": "bucket_sort", "sort": [{(*rng.pick(&["_count", "_key", "s0", "nope"])).to_string(): *rng.pick(&["asc", "desc"])}], "from": small_or_huge(rng, 3), "size": small_or_huge(rng, 3)}),
-  }
-}
-
-/// sizes that end up in `vec![x; n]` / `with_capacity(n)`: a request for 2^40 elements is an
-/// allocation failure (process abort, not a panic), which an in-process harness cannot
-/// observe — the huge values stay below that (see the report)
-pub fn small_or_huge_capped(rng: &mut Rng, small: usize) -> Value {
-  if rng.chance(1, 6) {
-    json!(*rng.pick(&[0u64, 1, 50_001, 1_000_000, 20_001]))
-  } else {
-    json!(rng.below(small + 1))
   }
 }
 
@@ -559,7 +549,7 @@ pub fn agg(rng: &mut Rng, depth: usize) -> Value {
                 "ranges": [{"key": null, "from": pk(rng, &[json!(null), json!("1970-01-01T00:00:00Z"), json!("now"), json!("é")]), "to": pk(rng, &[json!(null), json!("1970-01-01"), json!("5")])}],
                 "missing": pk(rng, &[json!(null), json!("x")])}),
     5 => json!({"type": *rng.pick(&["stats", "extended_stats", "value_count"]), "field": num_field(rng), "missing": pk(rng, &[json!(null), json!(1), json!("x"), json!(1e308)])}),
-    6 => json!({"type": "cardinality", "field": *rng.pick(&["tag", "n", "x", "cat", "nope"]), "precision_threshold": small_or_huge_capped(rng, 100), "missing": pk(rng, &[json!(null), json!("z"), json!(7)])}),
+    6 => json!({"type": "cardinality", "field": *rng.pick(&["tag", "n", "x", "cat", "nope"]), "precision_threshold": small_or_huge(rng, 100), "missing": pk(rng, &[json!(null), json!("z"), json!(7)])}),
     7 => json!({"type": "percentiles", "field": num_field(rng), "percents": pk(rng, &[json!(null), json!([50.0]), json!([]), json!([-1.0, 101.0, 1e308]), json!([0.0, 100.0])])}),
     8 => json!({"type": "percentile_ranks", "field": num_field(rng), "values": pk(rng, &[json!([1.0]), json!([]), json!([-1e308, 1e308])])}),
     9 => json!({"type": "top_hits", "size": small_or_huge(rng, 3), "from": small_or_huge(rng, 3), "fields": pk(rng, &[json!(null), json!(["body"]), json!(["nope", ""])]),
@@ -600,7 +590,7 @@ pub fn highlight(rng: &mut Rng) -> Value {
     if rng.chance(1, 2) {
       fields.insert(f.to_string(), json!({
         "pre_tag": *rng.pick(&["<em>", "", "é", "$0", "\\"]), "post_tag": *rng.pick(&["</em>", "", "日"]),
-        "fragment_size": small_or_huge(rng, 30), "number_of_fragments": small_or_huge_capped(rng, 3)}));
+        "fragment_size": small_or_huge(rng, 30), "number_of_fragments": small_or_huge(rng, 3)}));
     }
   }
   json!({"fields": fields})
@@ -608,7 +598,8 @@ pub fn highlight(rng: &mut Rng) -> Value {
 
 /// one structure-aware request
 pub fn request(rng: &mut Rng) -> Value {
-  let dup = rng.chance(1, 10);
+  // repeated words / the same term in several scoring clauses: fine since /repo 458e503
+  let dup = rng.chance(1, 2);
   let mut w = Words::new(rng, dup);
   let q = if rng.chance(1, 6) {
     let n = rng.below(4);
@@ -985,21 +976,6 @@ pub fn sanitize(v: &mut Value) -> bool {
   let mut changed = false;
   match v {
     Value::Object(m) => {
-      // `top_hits.size/from` and `moving_avg.predict` size an allocation directly (see the
-      // isolated stream); in-process they stay <= 10^6
-      let big = |v: &Value| v.as_f64().map(|x| x > 1.0e6).unwrap_or(false);
-      if m.get("type") == Some(&json!("top_hits")) {
-        for k in ["size", "from"] {
-          if m.get(k).map(big).unwrap_or(false) {
-            m.insert(k.into(), json!(1_000_000));
-            changed = true;
-          }
-        }
-      }
-      if m.get("predict").map(big).unwrap_or(false) {
-        m.insert("predict".into(), json!(1_000_000));
-        changed = true;
-      }
       let has_bounds = ["extended_bounds", "hard_bounds"].iter().any(|k| m.get(*k).map(|b| !b.is_null()).unwrap_or(false));
       let is_hist = m.contains_key("interval") || m.contains_key("fixed_interval") || m.contains_key("calendar_interval");
       if has_bounds && is_hist {
